@@ -7,15 +7,19 @@ tier=${1:-quick}; shift
 ids=${@:-C01 C02 C03 C04 C05 C06 C07 C08 C09 C10 C11 C12 C13 C14 C15 C16 C17 C18 C19 C20}
 . /verif/env.sh
 out=/tmp/vcover; rm -rf $out; mkdir -p $out/bin $out/cov $out/ev
+/verif/build.sh plain >/dev/null || exit 2   # refreshes harness/go.sum
 cd /verif/harness
-pk=github.com/jhalter/mobius/hotline,github.com/jhalter/mobius/internal/mobius
-go build -tags verif -cover -coverpkg=$pk -o $out/bin/vcheck ./cmd/vcheck || exit 2
-go build -tags verif -race -cover -coverpkg=$pk -o $out/bin/vcheck-race ./cmd/vcheck || exit 2
+# -coverpkg does not reach a module pulled in through a replace directive; in workspace mode both modules are main
+# modules and plain -cover instruments them
+printf 'go 1.23\n\nuse (\n\t/verif/harness\n\t/repo\n)\n' > $out/go.work
+export GOWORK=$out/go.work GOFLAGS=
+go build -tags verif -cover -covermode=atomic -o $out/bin/vcheck ./cmd/vcheck || exit 2
+go build -tags verif -race -cover -covermode=atomic -o $out/bin/vcheck-race ./cmd/vcheck || exit 2
 export GOCOVERDIR=$out/cov VERIF_EVIDENCE_DIR=$out/ev VERIF_BIN_DIR=$out/bin
 for id in $ids; do
   $out/bin/vcheck run $id $tier 2>&1 | tail -1
 done
-go tool covdata textfmt -i=$out/cov -o $out/profile.txt
+go tool covdata textfmt -i=$out/cov -pkg=github.com/jhalter/mobius/hotline,github.com/jhalter/mobius/internal/mobius -o $out/profile.txt
 cd /repo && go tool cover -func=$out/profile.txt > $out/func.txt
 tail -1 $out/func.txt
 echo "per-function report: $out/func.txt"
